@@ -33,6 +33,7 @@ def check(ctx):
     spsc.rule_replay_keeps(ctx, facts, "R9")
     from .. import provrules
     provrules.rule_config(ctx, facts, "R8")
+    provrules.rule_not_sampled_sentinel(ctx, facts, "R10")
     # R5
     n = 0
     for f in facts.fns.values():
